@@ -35,9 +35,73 @@ def whole_scan_depths(ctx):
             ctx.violation("whole_scan_depth", [d, 0], "depth <= 0 must return the bare root")
 
 
+def applied_only_within_budget(ctx):
+    """first clause, on the shipped registry: with limit k the decoders are applied only to the input and to values fewer than k decoding steps away.
+    Every call of a shipped decoder function is recorded - through the registry AND through the module globals (a decoder calling a decoder) - and every value it
+    was applied to during scan(data, k) must be the input or the value of a node of the tree for k-1 (values first reached by the k-th pass are attached, not searched)."""
+    import base64
+    import importlib
+    import pkgutil
+    import corpus_gen
+    import multidecoder.decoders as pkg
+    from common import node_val
+    from multidecoder.multidecoder import Multidecoder
+    from multidecoder.registry import build_registry
+    seen = []
+    patched = []
+
+    def wrap(f):
+        def w(data, *a, **kw):
+            seen.append(bytes(data))
+            return f(data, *a, **kw)
+        w.__name__ = getattr(f, "__name__", "kw")
+        return w
+    reg = build_registry()
+    names = {f.__name__ for f in reg if hasattr(f, "__name__")}
+    for m in pkgutil.iter_modules(pkg.__path__):
+        mod = importlib.import_module("multidecoder.decoders." + m.name)
+        for nm in names:
+            f = mod.__dict__.get(nm)
+            if callable(f) and getattr(f, "__module__", None) == mod.__name__:
+                patched.append((mod, nm, f))
+                setattr(mod, nm, wrap(f))
+    try:
+        md = Multidecoder([wrap(f) for f in reg])
+        plain = Multidecoder(reg)
+        inner = "Write-Host http://stage3.example.com/x"
+        nested = []
+        for _ in range(3):
+            inner = "powershell -enc " + base64.b64encode(inner.encode("utf-16-le")).decode()
+            nested.append(b"run " + inner.encode() + b" now")
+        inputs = nested + [b'x = atob("aHR0cDovL2EuY29tL3A/cT1hR1ZzYkc4Z2QyOXliR1FnYUdWc2JHOGdkMjl5YkdRZ2FHVnNiRzg9")'] + [d for d in corpus_gen.gen_inputs(ctx.rng, ctx.budget(40, 600), ("stack", "shell")) if len(d) < 3000]
+        for data in inputs:
+            for k in (1, 2, 3):
+                prev = node_val(plain.scan(data, k - 1))
+                allowed = {data}
+
+                def vals(t):
+                    allowed.add(t[1])
+                    for c in t[5]:
+                        vals(c)
+                vals(prev)
+                del seen[:]
+                md.scan(data, k)
+                ctx.evals += 1
+                extra = [v for v in seen if v not in allowed]
+                if len(allowed) > 1:
+                    ctx.nontrivial.add(("budget", data, k))
+                if extra:
+                    ctx.violation("applied_within_budget", [data, k], f"with depth limit {k} a decoder was applied to {extra[0][:60]!r}, which is neither the input nor a value within {k - 1} decoding steps of it")
+                    break
+    finally:
+        for mod, nm, f in patched:
+            setattr(mod, nm, f)
+
+
 def run(ctx):
     run_engine(ctx, ORACLES)
     whole_scan_depths(ctx)
+    applied_only_within_budget(ctx)
 
 
 def search(ctx):
